@@ -55,7 +55,8 @@ LEXABLE = set(".,")
 def sep_ops(dsep, tsep):
     if (dsep, tsep) == (",", "."):
         return []
-    return [{"op": "set_dec", "v": dsep}, {"op": "set_thou", "v": tsep}]
+    from . import common as _common
+    return _common.sep_ops(dsep, tsep)
 
 
 def lit(v, dsep):
